@@ -37,6 +37,10 @@ def check_outcome_error(prop, sc, out):
     kn = sc['knobs']
     etype = out.error.split(':')[0] if out.error_class == 'no-result' else out.error_class
     key = f"{out.error_class}/{etype}/meas={kn['measurements_arg']}"
+    if sc['filter'] == 'feedback' and out.error_class == 'no-result' and \
+            FW.fixes_in_long_gap(sc) >= 3:
+        # the input class of known finding F9 (see KNOWN_FINDINGS.txt)
+        key = 'divergence/several-fixes-inside-a-long-imu-gap'
     return [V(out.error_class, f"{sc['filter']} filter did not return: {out.error}", key)]
 
 
@@ -97,7 +101,8 @@ def check_c09(sc, m, out):
                       'imu-conservation'))
     if not FW.finite_table(res.trajectory):
         viol.append(V('nonfinite', "trajectory contains non-finite values",
-                      'nonfinite/trajectory'))
+                      'divergence/several-fixes-inside-a-long-imu-gap'
+                      if FW.fixes_in_long_gap(sc) >= 3 else 'nonfinite/trajectory'))
     expected = FW.expected_stamps(sc, m)
     if sc['knobs']['measurements_arg'] == 'list':
         for s, exp in zip(sc['sensors'], expected):
